@@ -628,8 +628,8 @@ Section E2E.
       rewrite (H x (or_introl eq_refl)), (H y (or_intror Hy)). reflexivity.
     Qed.
 
-    Lemma hive_attempt_fails keys : hive = false -> keys <> [] -> Forall key_ok keys ->
-      path_to_cats true pm (map (fun key => (dir_path hive names key, split_on c_slash (dir_path hive names key))) keys) = VErr.
+    Lemma hive_attempt_fails pm' keys : hive = false -> keys <> [] -> Forall key_ok keys ->
+      path_to_cats true pm' (map (fun key => (dir_path hive names key, split_on c_slash (dir_path hive names key))) keys) = VErr.
     Proof.
       intros Hh Hn Hk. destruct keys as [|key r]; [congruence|]. inversion Hk as [|? ? Hkey Hr]; subst.
       unfold Partition.path_to_cats. cbn [map fold_left]. unfold Partition.path_hits. cbn [fst].
@@ -639,6 +639,9 @@ Section E2E.
 
     Variable ord : list str -> list str.
     Hypothesis Hord : forall l x, In x (ord l) <-> In x l.
+    (* pm is the metadata the reader effectively uses: that of the file (pm0) for hive, none for drill *)
+    Variable pm0 : list (str * kind).
+    Hypothesis Hpm : pm = if hive then pm0 else [].
 
     Lemma text_rv k v : textlevel k -> Pv k v -> rv v = VStr (show hive v).
     Proof.
@@ -673,7 +676,7 @@ Section E2E.
     Qed.
 
     Lemma cats_of_dataset (files : list (str * list row)) : files <> [] -> Forall file_ok files ->
-      exists cats, paths_to_cats pm (map fst files) (ord (dedup_str (map strip_tail (map fst files))))
+      exists cats, paths_to_cats pm0 (map fst files) (ord (dedup_str (map strip_tail (map fst files))))
                    = Ok (if hive then Hive else Drill, cats) /\
         forall key i, key_ok key -> In (rel_path hive names key (part_name i)) (map fst files) -> cats_ok cats key.
     Proof.
@@ -727,13 +730,13 @@ Section E2E.
                    = Ok (final_cats st')).
       { unfold Partition.path_to_cats. rewrite Efold. reflexivity. }
       destruct (Bool.bool_dec hive true) as [Eh|Eh].
-      - rewrite Eh in E1 |- *. rewrite E1. reflexivity.
+      - rewrite Eh in E1, Hpm |- *. rewrite <- Hpm. rewrite E1. reflexivity.
       - apply not_true_is_false in Eh.
-        rewrite (hive_attempt_fails keys Eh Hkn Hkeys). rewrite Eh in E1 |- *. rewrite E1. reflexivity.
+        rewrite (hive_attempt_fails pm0 keys Eh Hkn Hkeys). rewrite Eh in E1, Hpm |- *. rewrite <- Hpm. rewrite E1. reflexivity.
     Qed.
 
     Theorem read_generic (files : list (str * list row)) : files <> [] -> Forall file_ok files ->
-      read_model pm ord files
+      read_model pm0 ord files
       = Some (if hive then Hive else Drill,
               map (fun r => (combine rnames (map rv (key_of r)), snd r)) (concat (map snd files))).
     Proof.
@@ -750,8 +753,8 @@ Section E2E.
           + cbn [option_map]. f_equal. apply map_ext_in. intros r Hr'. now rewrite (Hr r Hr').
           + apply (Hcats key i Hk). exact Hpin. }
       destruct (Bool.bool_dec hive true) as [Eh|Eh].
-      - rewrite Eh in Hrf |- *. rewrite Hrf. reflexivity.
-      - apply not_true_is_false in Eh. rewrite Eh in Hrf |- *. rewrite Hrf. reflexivity.
+      - rewrite Eh in Hrf, Hpm |- *. rewrite <- Hpm. rewrite Hrf. reflexivity.
+      - apply not_true_is_false in Eh. rewrite Eh in Hrf, Hpm |- *. rewrite <- Hpm. rewrite Hrf. reflexivity.
     Qed.
 
     (* ------------------------------------------------------------ writer and reader together *)
@@ -759,6 +762,7 @@ Section E2E.
 
     Lemma keys_eqb_eq a b : key_ok a -> key_ok b -> keys_eqb a b = true -> a = b.
     Proof.
+      clear Hpm.
       unfold key_ok. generalize rnames as ns. intros ns Ha'. revert b.
       induction Ha' as [|n v ns a Hnv Hr IH]; intros b Hb; inversion Hb as [|? v' ? b' Hnv' Hr']; subst; [reflexivity|].
       cbn. intros H. apply andb_true_iff in H. destruct H as [H1 H2].
@@ -775,6 +779,7 @@ Section E2E.
         exists key i, key_ok key /\ fst f = rel_path hive names key (part_name i) /\
                       forall r, In r (snd f) -> In r (concat chunks) /\ nonnull r = true /\ key_of r = key.
     Proof.
+      clear Hpm.
       intros Hfr f Hin. unfold Partition.write_model in Hin.
       destruct (write_model_files hive names chunks O f Hin) as [i [chunk [k [Hc1 [Hg Hp]]]]].
       assert (Hi : incl chunk (concat chunks)).
@@ -793,6 +798,7 @@ Section E2E.
       forall f r, In f (write_model hive names chunks) -> In r (snd f) ->
         nonnull r = true /\ exists i, fst f = rel_path hive names (key_of r) (part_name i).
     Proof.
+      clear Hpm.
       intros Hfr. split; [apply write_model_perm|].
       intros f r Hf Hr. destruct (written_files_ok chunks Hfr f Hf) as [key [i [_ [Hp Hall]]]].
       destruct (Hall r Hr) as [_ [H2 H3]]. split; [exact H2|]. exists i. now rewrite H3.
@@ -800,7 +806,7 @@ Section E2E.
 
     Theorem e2e chunks : frame_ok (concat chunks) ->
       exists sch out,
-        read_model pm ord (write_model hive names chunks) = Some (sch, out) /\
+        read_model pm0 ord (write_model hive names chunks) = Some (sch, out) /\
         Permutation out (map expect (filter nonnull (concat chunks))) /\
         (filter nonnull (concat chunks) <> [] -> sch = if hive then Hive else Drill).
     Proof.
@@ -969,6 +975,7 @@ Section E2E.
         unfold Partition.row_partitions. rewrite H4, map_app, F4. eexists. reflexivity.
       - discriminate.
       - exact Hord.
+      - reflexivity.
       - intros n a b [k [Ek [Hwf _]]] [k' [Ek' [Hwf' _]]] H. rewrite Ek in Ek'. injection Ek' as <-.
         now apply (veqb_wf_eq k).
     Qed.
@@ -1019,11 +1026,11 @@ Section E2E.
     Definition dnames : list str := map dir_name (seq 0 (length names)).
     Definition rv_drill (v : value) : value := parse_guess (show false v).
 
-    (* an admissible key value of the level with positional name n: no metadata under that name,
-       the text is one non-empty legal path segment, and the level holds integers, booleans or
-       text that none of the guesses of _val_to_num converts *)
+    (* an admissible key value of the level with positional name n: the text is one non-empty legal
+       path segment, and the level holds integers, booleans or text that none of the guesses of
+       _val_to_num converts (the metadata of the file plays no role for drill: fix b6723cb) *)
     Definition Pv_drill (n : str) (v : value) : Prop :=
-      alist_get n pm = None /\ legal (show false v) /\ show false v <> [] /\
+      legal (show false v) /\ show false v <> [] /\
       match lk n with
       | LText => exists s, v = VStr s /\ parse_guess s = VStr s
       | LInt => exists z, v = VInt z
@@ -1037,7 +1044,7 @@ Section E2E.
       | LBool => exists b, v = VBool b /\ rv_drill v = VBool b
       end.
     Proof.
-      intros [_ [_ [_ H]]]. unfold rv_drill. destruct (lk n).
+      intros [_ [_ H]]. unfold rv_drill. destruct (lk n).
       - destruct H as [s [-> Hs]]. exists s. split; [reflexivity|exact Hs].
       - destruct H as [z ->]. exists z. split; [reflexivity|]. cbn [Partition.show].
         apply (guess_int F T D parse_float parse_time_pd parse_delta).
@@ -1056,7 +1063,7 @@ Section E2E.
       split; [|split; [|exact Hl]].
       - clear Hl. unfold key_ok in H. revert H. generalize dnames as ns. intros ns H.
         induction H as [|n v ns key' Hnv Hr IH]; cbn; [constructor|].
-        constructor; [|exact IH]. destruct Hnv as [_ [H1 [H2 _]]]. now split.
+        constructor; [|exact IH]. destruct Hnv as [H1 [H2 _]]. now split.
       - now apply drill_segments.
     Qed.
 
@@ -1089,8 +1096,8 @@ Section E2E.
         Permutation out (map (expect dnames rv_drill) (filter nonnull (concat chunks))) /\
         (filter nonnull (concat chunks) <> [] -> sch = Drill).
     Proof.
-      apply (e2e false pm names dnames dnames_nodup Pv_drill rv_drill (fun n => lk n = LText)).
-      - intros n v [Hn _]. rewrite Hn. reflexivity.
+      apply (e2e false [] names dnames dnames_nodup Pv_drill rv_drill (fun n => lk n = LText)).
+      - intros n v _. reflexivity.
       - intros n v Hv Hs. pose proof (rv_drill_cases n v Hv) as Hc. destruct (lk n); [reflexivity| |].
         + destruct Hc as [z [_ E]]. rewrite E in Hs. discriminate.
         + destruct Hc as [b [_ E]]. rewrite E in Hs. discriminate.
@@ -1110,6 +1117,7 @@ Section E2E.
         unfold Partition.row_partitions. rewrite H3, removelast_last, H8. exists []. now rewrite app_nil_r.
       - intros _ key Hk. apply (drill_paths key O Hk).
       - exact Hord.
+      - reflexivity.
       - intros n a b Ha Hb H. pose proof (rv_drill_cases n a Ha) as Hc. pose proof (rv_drill_cases n b Hb) as Hc'.
         destruct (lk n).
         + destruct Hc as [s [-> _]], Hc' as [s' [-> _]]. cbn in H. destruct (str_eqb_spec s s'); [now subst|discriminate].
